@@ -538,10 +538,19 @@ def build(tier, seed):
     contracts += [FnContract(ws, "StdLibBackend.map", cases_m), FnContract(ws, "StdLibBackend.starmap", cases_s),
                   FnContract(ws, "StdLibBackend.submit", cases_a)]
 
+    # F23 (open known finding, lead's decision): MPPoolExec.map raises ValueError on argument sequences of uneven length (zip(strict=True))
+    # where builtin map truncates; the base-class docstring asks for consistent lengths, so the code is not repaired -- the property
+    # statement's obligations stay as they are and are tagged as instances of the finding
+    def f23(fc):
+        if fc.qualname != "MPPoolExec.map":
+            return None
+        return {c.label: "F23" for c in fc.cases
+                if len({p.args[1] for nm_, p in c.params.items() if nm_.startswith("s") and p.kind == "list"}) > 1}
+
     for fc in contracts:
         for case in fc.cases:
             case.interp_cls = OpaqueValuesInterp
-        for ob in obligations_for("C65", fc, tier):
+        for ob in obligations_for("C65", fc, tier, finding=f23(fc)):
             plan.add(ob)
         plan.fn_under_contract(fc.world.file, fc.qualname)
     for f, q in ((BASE, "RemoteExec._get_backend"), (BASE, "RemoteExec._submit_fn"), (BASE, "RemoteExec._map_fn"),
